@@ -347,6 +347,12 @@ def oracle(ops):
                 if (y, ns) not in seen:
                     seen.add((y, ns))
                     stack.append((y, ns))
+    level = {m: 0 for m in mut}
+    for _ in range(len(mut) + 1):
+        for m in mut:
+            for (y, pol) in graph.get(m, ()):
+                if y in level:
+                    level[m] = max(level[m], level[y] + (1 if pol < 0 else 0))
     atoms = sorted(atoms)
     if len(atoms) > 6:
         return outs, [], "too many atoms"
@@ -373,19 +379,21 @@ def oracle(ops):
             if e[0] == "or":
                 return any(ev(s) for s in e[1])
             return mv[e[1]]
-        for _ in range(len(mut) + 2):
-            new = {m: any(ev(d) for d in ds) for m, ds in mut.items()}
-            # stratified enough: negative deps are outside cycles (checked above); iterate to stability
-            if new == mv:
-                break
-            mv = new
-        else:
-            # not stabilised within |mut|+2 rounds: recompute until stable (bounded)
-            for _ in range(50):
-                new = {m: any(ev(d) for d in ds) for m, ds in mut.items()}
-                if new == mv:
+        # stratified least fixpoint: negative dependencies are outside cycles (checked above), so the mutables can be
+        # levelled by the number of negations below them; each level is a monotone least fixpoint over the levels below.
+        # (A simultaneous iteration from all-false is NOT that: a node that is transiently true through the negation of
+        # a not-yet-computed node can keep itself true through a positive self-loop.)
+        for lv in sorted(set(level.values())):
+            cur = [m for m in mut if level[m] == lv]
+            for _ in range(len(cur) + 2):
+                changed = False
+                for m in cur:
+                    v = any(ev(d) for d in mut[m])
+                    if v != mv[m]:
+                        mv[m] = v
+                        changed = True
+                if not changed:
                     break
-                mv = new
         # real store: cut evaluation (= least fixpoint when no negative edge lies on a cycle)
         def rv(k, anc):
             if k is None:
@@ -463,7 +471,18 @@ def run(ctx):
     first_problem = None
     first_diff = None
     skipped = {}
-    for ops in seqs:
+    # the model is run on all sequences in a few driver processes (`opts` starts a fresh store): one process per
+    # sequence costs ~0.2 s each on a loaded machine
+    models = {}
+    if drv is not None:
+        for a in range(0, len(seqs), 2000):
+            chunk = seqs[a:a + 2000]
+            flat = drv.run([o for ops in chunk for o in ops])
+            k = 0
+            for j, ops in enumerate(chunk):
+                models[a + j] = flat[k:k + len(ops)]
+                k += len(ops)
+    for si, ops in enumerate(seqs):
         outs, problems, skip = oracle(ops)
         ctx.case(" ".join(ops), nontrivial=len(ops) >= 8)
         ctx.count("opts " + ops[0][5:])
@@ -474,7 +493,7 @@ def run(ctx):
         if problems and first_problem is None:
             first_problem = (ops, problems)
         if drv is not None:
-            model = drv.run(ops)
+            model = models[si]
             m2 = [canon_dump(x) if ops[i] == "dump" else x for i, x in enumerate(model)]
             o2 = [canon_dump(x) if ops[i] == "dump" else x for i, x in enumerate(outs)]
             if m2 != o2 and first_diff is None:
